@@ -1109,7 +1109,7 @@ def get_attr(interp, obj, name, node):
         obj.attrs[name] = child
         return child
     tp = _type_key(obj)
-    if (tp, name) in METHODS:
+    if (tp, name) in METHODS or (type(obj).__name__, name) in METHODS:
         return SBoundLib(obj, name)
     if isinstance(obj, (bool, int, float)) or obj is None:
         raise SymRaise("AttributeError", f"{type(obj).__name__}.{name}", node, ("AttributeError", "Exception"))
@@ -1150,7 +1150,7 @@ def _type_key(obj):
 
 
 def call_method(interp, recv, name, args, kwargs, node, frame):
-    f = METHODS.get((_type_key(recv), name))
+    f = METHODS.get((type(recv).__name__, name)) or METHODS.get((_type_key(recv), name))
     if f is None and interp.config.get("permissive"):
         return SOpaque(f"{name}(...)")
     if f is None:
